@@ -120,6 +120,10 @@ def gen_random(rng, length, krange, p_ins=0.5, p_rem=0.4, offset=0):
         if x < p_ins:
             if live.ks and rng.random() < 0.08:
                 k = live.choice(rng)                       # duplicate on purpose
+                if rng.random() < 0.5:                     # ... and the resident node object itself, offered again (C03-18):
+                    ops.append(("I", k, live.idof[k]))     # "returns the resident element unchanged" - nothing may be written
+                    ops.append(("S", k))
+                    continue
             if free and rng.random() < 0.6:
                 i = free.pop(rng.randrange(len(free)))
             else:
@@ -164,6 +168,11 @@ def gen_directed(rng, m):
         }
         for rn, ro in rems.items():
             out.append(ins + [("R", k) for k in ro])
+        # every resident node object offered a second time (root, inner nodes, leaves), everything searched, then torn down
+        first = {}
+        for j, k in enumerate(order):
+            first.setdefault(k, j + 1)
+        out.append(ins + [op for k in present for op in (("I", k, first[k]), ("S", k))] + [("S", k) for k in present] + [("R", k) for k in present])
         # remove the minimum / maximum alternately with re-insertion at the other end (sliding window)
         ops = list(ins)
         lo, hi, nid = 1, m, m + 1
@@ -408,12 +417,14 @@ def oracle_case(ops, lines):
 
 
 def well_formed(ops):
-    """the caller obligation of the API: a node that is linked in the tree is not inserted again"""
+    """the caller obligation of the API: a node that is linked in the tree is not inserted again under another key.  Offering
+    the resident node object itself a second time (same key) is a duplicate insertion like any other: "returns the resident
+    element unchanged" (seeded change C03-18)"""
     res, linked = {}, set()
     for o in ops:
         if o[0] == "I":
             _, k, i = o
-            if i in linked or i < 1:
+            if i < 1 or (i in linked and res.get(k) != i):
                 return False
             if k not in res:
                 res[k] = i
